@@ -245,3 +245,97 @@ func Verif_C19_write_faults() {
 	verifrt.Assert(err != nil, "a failing sink is reported no later than Close")
 	verifrt.Assert(errors.Is(err, errVerifInjected), "the error carries the sink's error")
 }
+
+// verifEncryptedDoc writes a document under a user password with an object
+// stream of n members (several cipher blocks and several source reads long)
+// and a Flate stream behind ASCIIHex.
+func verifEncryptedDoc(v Version, n int) *verifDoc {
+	doc := &verifDoc{version: v}
+	var buf bytes.Buffer
+	w, err := NewWriter(&buf, v, &WriterOptions{
+		ID:           [][]byte{[]byte("0123456789abcdef"), []byte("0123456789abcdef")},
+		UserPassword: "pw",
+	})
+	verifrt.Assert(err == nil, "NewWriter succeeds")
+	if err != nil {
+		return nil
+	}
+	r1 := w.Alloc()
+	o1 := Object(Dict{"A": String("abc")})
+	verifrt.Assert(w.Put(r1, o1) == nil, "Put succeeds")
+	doc.objs = append(doc.objs, verifExpObj{r1, o1})
+	refs := make([]Reference, n)
+	objs := make([]Object, n)
+	for i := range refs {
+		refs[i] = w.Alloc()
+		objs[i] = Dict{"K": Integer(i), "S": String("some longer string value to fill space")}
+	}
+	verifrt.Assert(w.WriteCompressed(refs, objs...) == nil, "WriteCompressed succeeds")
+	for _, i := range []int{0, n / 2, n - 1} {
+		doc.objs = append(doc.objs, verifExpObj{refs[i], objs[i]})
+	}
+	sr := w.Alloc()
+	body := []byte("stream data behind two filters\n")
+	ws, err := w.OpenStream(sr, Dict{"Kind": Name("S")}, FilterASCIIHex{}, FilterFlate{})
+	verifrt.Assert(err == nil, "OpenStream succeeds")
+	if err != nil {
+		return nil
+	}
+	ws.Write(body)
+	verifrt.Assert(ws.Close() == nil, "stream closes")
+	doc.stms = append(doc.stms, verifExpStm{sr, body})
+	doc.pagesRef = w.Alloc()
+	w.GetMeta().Catalog.Pages = doc.pagesRef
+	verifrt.Assert(w.Close() == nil, "Close succeeds")
+	doc.file = buf.Bytes()
+	return doc
+}
+
+// Verif_C19_read_faults_encrypted: the read-fault property on encrypted
+// documents with an object stream that is read in several pieces and a
+// two-filter chain; every affected call also terminates (a loop still
+// running after 200000 iterations on a file of a few kilobytes is reported).
+func Verif_C19_read_faults_encrypted() {
+	defer verifFixRand()()
+	verifrt.TerminationBound(200000)
+	versions := []Version{V1_7, V1_4, V2_0}
+	v := versions[verifrt.Choice("version", 1+2*verifrt.Tier())]
+	doc := verifEncryptedDoc(v, 24)
+	if doc == nil {
+		return
+	}
+	mode := ReaderErrorHandling(verifrt.Choice("errmode", 3))
+	opt := &ReaderOptions{ErrorHandling: mode, Password: "pw"}
+	clean := &verifFaultyReader{data: doc.file, failAt: -1}
+	want := verifReadScenario(doc, clean, opt)
+	verifrt.Assert(want.openErr == nil, "fault-free open succeeds")
+	if want.openErr != nil {
+		return
+	}
+	for i := range want.vals {
+		verifrt.Assert(want.errs[i] == nil && verifEqual(doc.objs[i].obj, want.vals[i]), "fault-free read returns the written object")
+	}
+	k := verifrt.LenLayout("k", 0, clean.calls-1)
+	sticky := verifrt.Choice("sticky", 2) == 1
+	src := &verifFaultyReader{data: doc.file, failAt: k, sticky: sticky}
+	got := verifReadScenario(doc, src, opt)
+	verifrt.Cover("faulted")
+	if got.openErr != nil {
+		verifrt.Assert(verifFaultOK(got.openErr), "open reports the I/O failure as such")
+		return
+	}
+	for i := range want.vals {
+		if got.errs[i] != nil {
+			verifrt.Assert(verifFaultOK(got.errs[i]), "Get reports the I/O failure as such")
+		} else {
+			verifrt.Assert(verifEqual(want.vals[i], got.vals[i]), "Get returns the fault-free value or an error")
+		}
+	}
+	for i := range want.data {
+		if got.dataErrs[i] != nil {
+			verifrt.Assert(verifFaultOK(got.dataErrs[i]), "stream access reports the I/O failure as such")
+		} else {
+			verifrt.Assert(bytes.Equal(want.data[i], got.data[i]), "stream data equals the fault-free data")
+		}
+	}
+}
